@@ -8,8 +8,10 @@
 (*                uniforms as integers over T.R, T.chosen = [s, g1..gk]    *)
 (*                what the real walk returned                              *)
 (*  kind "word"   one honeyword: groups, scripted in-group choices, line   *)
-(*  kind "run"    a whole honeyword / random_walk session: T.n lines asked,*)
-(*                lines got, all lines in the language, two runs equal     *)
+(*  kind "run"    a whole honeyword / random_walk session: T.n lines       *)
+(*                expected (N, or 0 when the ruleset's non-Markov language *)
+(*                is empty - HoneySession.tla), lines got, all lines in    *)
+(*                the language, two runs equal, the session ended          *)
 (***************************************************************************)
 EXTENDS Integers, Sequences, FiniteSets, TLC, TLCExt, Json, IOUtils
 
@@ -27,11 +29,12 @@ Owner(ls, t) == IF t = 0 \/ \A j \in DOMAIN ls : ~(Cum(ls, j - 1) * T.R < t * T.
                   THEN 1
                   ELSE CHOOSE j \in DOMAIN ls : Cum(ls, j - 1) * T.R < t * T.D /\ t * T.D <= Cum(ls, j) * T.R
 
-NClauses == CASE T.kind = "walk" -> 2 [] T.kind = "word" -> 1 [] OTHER -> 4
+NClauses == CASE T.kind = "walk" -> 2 [] T.kind = "word" -> 1 [] OTHER -> 5
 ClauseName(k) ==
   CASE T.kind = "walk" -> <<"C16_structure_drawn_with_its_probability", "C16_groups_drawn_with_their_probability">>[k]
     [] T.kind = "word" -> <<"C16_word_is_the_chosen_derivation">>[k]
-    [] OTHER           -> <<"C16_exactly_N_words", "C16_words_in_the_language", "C16_random_walk_reproducible", "C16_no_markov_word">>[k]
+    [] OTHER           -> <<"C16_exactly_N_words", "C16_words_in_the_language", "C16_random_walk_reproducible", "C16_no_markov_word",
+                           "C16_session_ends">>[k]
 ClauseHolds(k) ==
   CASE T.kind = "walk" /\ k = 1 -> T.chosen[1] = Owner(T.base, T.draws[1])
     [] T.kind = "walk" /\ k = 2 -> \A p \in DOMAIN T.pos : T.chosen[p + 1] = Owner(T.pos[p], T.draws[p + 1])
@@ -40,6 +43,7 @@ ClauseHolds(k) ==
     [] T.kind = "run" /\ k = 2 -> \A i \in DOMAIN T.lines : T.inlang[i]
     [] T.kind = "run" /\ k = 3 -> T.lines = T.lines2
     [] T.kind = "run" /\ k = 4 -> \A i \in DOMAIN T.lines : ~T.markov[i]
+    [] T.kind = "run" /\ k = 5 -> T.ended
 
 Failing == SelectSeq([k \in 1..NClauses |-> IF ClauseHolds(k) = TRUE THEN "" ELSE ClauseName(k)], LAMBDA x : x # "")
 TInit == tid \in 1..NT /\ l = 1
